@@ -134,6 +134,10 @@ static void do_conn(thr_t *t, const char *hname, const char *ver, int suite, con
     matrixSslSessOptsSetServerTlsVersions(&so, &pv, 1);
     matrixSslSessOptsSetClientTlsVersions(&co, &pv, 1);
     if (!strcmp(want, "ticket") || (!strcmp(want, "full") && hname[0] == 'T')) co.ticketResumption = 1;
+    /* clients differ in the curve they allow for ECDHE (by handle and connection count), so that the key set's shared
+       ephemeral-key cache is regenerated while other threads read it */
+    { unsigned hv = 0; const char *q; static atomic_long nconn; for (q = hname; *q; q++) hv = hv * 31 + (unsigned char) *q;
+      co.ecFlags = ((hv + (unsigned) atomic_fetch_add(&nconn, 1)) & 1) ? SSL_OPT_SECP384R1 : SSL_OPT_SECP256R1; }
     t0 = atomic_fetch_add(&g_clock, 1);
     rc = matrixSslNewServerSession(&s, g_ks, NULL, &so);
     if (rc >= 0) rc = matrixSslNewClientSession(&c, g_kc, sid, pv == v_tls_1_3 ? NULL : &cs, pv == v_tls_1_3 ? 0 : 1, NULL, NULL, NULL, NULL, &co);
